@@ -7,6 +7,7 @@ package main
 
 import (
 	"bytes"
+	"context"
 	"fmt"
 	"os"
 	"os/exec"
@@ -14,6 +15,7 @@ import (
 	"runtime/debug"
 	"strconv"
 	"strings"
+	"time"
 
 	capnp "capnproto.org/go/capnp/v3"
 	"capnproto.org/go/capnp/v3/encoding/text"
@@ -28,6 +30,11 @@ const (
 	recA    = 0xa000000000000003 // struct A { b @0 :B; }
 	recB    = 0xa000000000000004 // struct B { x @0 :UInt8; a @1 :A; }
 	recDef  = 0xa000000000000005 // struct Def { x @0 :UInt8; next @1 :Def = (x = 1); }
+	recC    = 0xa000000000000006 // struct C { p @0 :D; }      cycle of length 3: C -> D -> E -> C
+	recD    = 0xa000000000000007 // struct D { q @0 :E; }
+	recE    = 0xa000000000000008 // struct E { r @0 :C; }
+	recF    = 0xa000000000000009 // struct F { g @0 :G = (n = 5); }   cycle of length 2 with explicit defaults
+	recG    = 0xa00000000000000a // struct G { n @0 :UInt8; f @1 :F = (); }
 )
 
 var recData []byte
@@ -41,21 +48,20 @@ type recField struct {
 	isPtr  bool
 }
 
+type recType struct {
+	id     uint64
+	fields []recField
+}
+
+func structT(id uint64) func(schema.Type) {
+	return func(t schema.Type) { t.SetStructType(); t.StructType().SetTypeId(id) }
+}
+
 func recBuild() {
 	if recData != nil {
 		return
 	}
-	msg, seg, err := capnp.NewMessage(capnp.SingleSegment(nil))
-	must(err)
-	req, err := schema.NewRootCodeGeneratorRequest(seg)
-	must(err)
-	structT := func(id uint64) func(schema.Type) {
-		return func(t schema.Type) { t.SetStructType(); t.StructType().SetTypeId(id) }
-	}
-	types := []struct {
-		id     uint64
-		fields []recField
-	}{
+	types := []recType{
 		{recNode, []recField{{name: "val", set: func(t schema.Type) { t.SetInt32() }}, {name: "next", set: structT(recNode), isPtr: true}}},
 		{recTree, []recField{{name: "left", set: structT(recTree), isPtr: true}, {name: "right", off: 1, set: structT(recTree), isPtr: true},
 			{name: "kids", off: 2, isPtr: true, set: func(t schema.Type) {
@@ -74,10 +80,37 @@ func recBuild() {
 				st.SetUint8(0, 1)
 				return st.ToPtr()
 			}}}},
+		{recC, []recField{{name: "p", set: structT(recD), isPtr: true}}},
+		{recD, []recField{{name: "q", set: structT(recE), isPtr: true}}},
+		{recE, []recField{{name: "r", set: structT(recC), isPtr: true}}},
+		{recF, []recField{{name: "g", set: structT(recG), isPtr: true,
+			defPtr: func(seg *capnp.Segment) capnp.Ptr {
+				st, err := capnp.NewStruct(seg, capnp.ObjectSize{DataSize: 8, PointerCount: 1})
+				must(err)
+				st.SetUint8(0, 5)
+				return st.ToPtr()
+			}}}},
+		{recG, []recField{{name: "n", set: func(t schema.Type) { t.SetUint8() }}, {name: "f", set: structT(recF), isPtr: true,
+			defPtr: func(seg *capnp.Segment) capnp.Ptr {
+				st, err := capnp.NewStruct(seg, capnp.ObjectSize{PointerCount: 1})
+				must(err)
+				return st.ToPtr()
+			}}}},
 	}
+	var ids []uint64
+	recData, ids = buildSchemaBytes(types)
+	recReg = new(schemas.Registry)
+	must(recReg.Register(&schemas.Schema{Bytes: recData, Nodes: ids}))
+}
+
+// buildSchemaBytes builds a CodeGeneratorRequest message with the given struct types.
+func buildSchemaBytes(types []recType) (data []byte, ids []uint64) {
+	msg, seg, err := capnp.NewMessage(capnp.SingleSegment(nil))
+	must(err)
+	req, err := schema.NewRootCodeGeneratorRequest(seg)
+	must(err)
 	nodes, err := req.NewNodes(int32(len(types)))
 	must(err)
-	var ids []uint64
 	for i, ty := range types {
 		n := nodes.At(i)
 		n.SetId(ty.id)
@@ -102,19 +135,17 @@ func recBuild() {
 				must(dv.SetStructValue(fd.defPtr(seg)))
 			case fd.isPtr && t.Which() == schema.Type_Which_structType:
 				must(dv.SetStructValue(capnp.Ptr{}))
-			case fd.isPtr:
+			case fd.isPtr && t.Which() == schema.Type_Which_list:
 				must(dv.SetList(capnp.Ptr{}))
-			case t.Which() == schema.Type_Which_int32:
-				dv.SetInt32(0)
 			default:
-				dv.SetUint8(0)
+				// a zero value of the field's own kind (Value.which ordinals equal Type.which ordinals)
+				dv.Struct.SetUint16(0, uint16(t.Which()))
 			}
 		}
 	}
-	recData, err = msg.Marshal()
+	data, err = msg.Marshal()
 	must(err)
-	recReg = new(schemas.Registry)
-	must(recReg.Register(&schemas.Schema{Bytes: recData, Nodes: ids}))
+	return data, ids
 }
 
 var recSchemaLine string
@@ -159,8 +190,15 @@ func doRecRender(out *Out, id uint64, raw string) {
 		defer os.RemoveAll(dir)
 		rf := filepath.Join(dir, "case.txt")
 		must(os.WriteFile(rf, []byte(fmt.Sprintf("recrender %x %s -\n", id, raw)), 0o644))
-		cmd := exec.Command(os.Args[0], "-out", filepath.Join(dir, "o"), "-part", "recchild", "-replay", rf)
-		if err := cmd.Run(); err == nil {
+		// the child is killed after 20 s: output without end (no stack growth) is "hang"
+		ctx, cancel := context.WithTimeout(context.Background(), 20*time.Second)
+		cmd := exec.CommandContext(ctx, os.Args[0], "-out", filepath.Join(dir, "o"), "-part", "recchild", "-replay", rf)
+		err = cmd.Run()
+		if ctx.Err() != nil {
+			obs = "hang"
+		}
+		cancel()
+		if err == nil {
 			b, err := os.ReadFile(filepath.Join(dir, "o", "impl.out"))
 			must(err)
 			ls := strings.Split(strings.TrimSpace(string(b)), "\n")
@@ -219,6 +257,16 @@ func genRecRaw(r *Rand, id uint64, depth int) string {
 		return sx("s", "-", sub(recTree), sub(recTree), kids)
 	case recA:
 		return sx("s", "-", sub(recB))
+	case recC:
+		return sx("s", "-", sub(recD))
+	case recD:
+		return sx("s", "-", sub(recE))
+	case recE:
+		return sx("s", "-", sub(recC))
+	case recF:
+		return sx("s", "-", sub(recG))
+	case recG:
+		return sx("s", data8(), sub(recF))
 	case recB:
 		return sx("s", data8(), sub(recA))
 	default:
@@ -227,7 +275,7 @@ func genRecRaw(r *Rand, id uint64, depth int) string {
 }
 
 func genRec(out *Out, r *Rand, tier string) {
-	ids := []uint64{recNode, recTree, recA, recB, recDef}
+	ids := []uint64{recNode, recTree, recA, recB, recDef, recC, recD, recE, recF, recG}
 	// the smallest values first: a node with a null pointer, an empty struct
 	for _, id := range ids {
 		doRecRender(out, id, "(s,-)")
